@@ -91,3 +91,16 @@ func Blob(v interface{}) []byte {
 	}
 	return b
 }
+
+// SealEntry gives the entry its real entry hash (the hash of its marshalled bytes), as
+// factomd would. Under the symbolic engine the entry keeps the distinct constant the harness
+// assigned (hashes are only copied and compared). Call it once the entry is complete and read
+// e.Hash afterwards.
+func SealEntry(e *factom.Entry) {
+	data, err := e.MarshalBinary()
+	if err != nil {
+		panic("vrt.SealEntry: " + err.Error())
+	}
+	h := factom.ComputeEntryHash(data)
+	e.Hash = &h
+}
